@@ -44,6 +44,10 @@ type RateCase struct {
 	// goes idle for this long after half of its requests (a client that comes back later)
 	CleanupMs int `json:"cleanup_ms,omitempty"`
 	PauseMs   int `json:"pause_ms,omitempty"`
+	// Spoof: trust_proxy_headers is on with trusted_proxy_cidrs 10.0.0.0/8, so the senders (127.0.0.1)
+	// are not a trusted proxy; every request carries a different address in this header
+	// ("" = trust_proxy_headers off, no such header). The bound for the one real client is unchanged.
+	Spoof string `json:"spoof,omitempty"` // "" | X-Forwarded-For | X-Real-IP | both
 }
 
 const rmodel = "vm-c17"
@@ -74,6 +78,10 @@ func bootRate(c RateCase) (*rateRig, error) {
 			cfg.Server.RateLimits.GlobalRequestsPerMinute = c.GlobalMin
 			cfg.Server.RateLimits.HealthRequestsPerMinute = 6000
 			cfg.Server.RateLimits.TrustProxyHeaders = false
+			if c.Spoof != "" {
+				cfg.Server.RateLimits.TrustProxyHeaders = true
+				cfg.Server.RateLimits.TrustedProxyCIDRs = []string{"10.0.0.0/8"}
+			}
 			if c.CleanupMs > 0 {
 				cfg.Server.RateLimits.CleanupInterval = time.Duration(c.CleanupMs) * time.Millisecond
 			}
@@ -137,7 +145,16 @@ func runRate(c RateCase) []ev.Violation {
 					}
 				}
 				t0 := time.Now()
-				resp, err := cl.Post(r.s.BaseURL+url, "application/json", strings.NewReader(body))
+				hreq, _ := http.NewRequest("POST", r.s.BaseURL+url, strings.NewReader(body))
+				hreq.Header.Set("Content-Type", "application/json")
+				fake := fmt.Sprintf("198.51.%d.%d", (k*c.Offered+i)/250%250, (k*c.Offered+i)%250+1)
+				if c.Spoof == "X-Forwarded-For" || c.Spoof == "both" {
+					hreq.Header.Set("X-Forwarded-For", fake)
+				}
+				if c.Spoof == "X-Real-IP" || c.Spoof == "both" {
+					hreq.Header.Set("X-Real-IP", fake)
+				}
+				resp, err := cl.Do(hreq)
 				if err != nil {
 					continue
 				}
@@ -179,11 +196,14 @@ func runRate(c RateCase) []ev.Violation {
 	offered := len(all)
 	rec.Class("route=" + c.Route)
 	rec.Class(fmt.Sprintf("keepalive=%v", c.KeepAlive))
+	if c.Spoof != "" {
+		rec.Class("untrusted-client-rotates=" + c.Spoof)
+	}
 	if float64(offered) >= 3*allowed && c.Conns >= 2 {
 		rec.NT(fmt.Sprintf("rate|%+v", c))
 	}
 	var vs []ev.Violation
-	desc := fmt.Sprintf("engine=%s limit %d/min burst %d (global %d/min), %d senders x %d requests, keep-alive=%v, route=%s: offered %d in %.2fs, admitted to the backend %d, bound burst+rate*t+1 = %.1f", c.Engine, c.PerMin, c.Burst, c.GlobalMin, c.Conns, c.Offered, c.KeepAlive, c.Route, offered, window, admitted, allowed)
+	desc := fmt.Sprintf("engine=%s limit %d/min burst %d (global %d/min), %d senders x %d requests, keep-alive=%v, route=%s, rotating-header=%q (untrusted): offered %d in %.2fs, admitted to the backend %d, bound burst+rate*t+1 = %.1f", c.Engine, c.PerMin, c.Burst, c.GlobalMin, c.Conns, c.Offered, c.KeepAlive, c.Route, c.Spoof, offered, window, admitted, allowed)
 	if float64(admitted) > allowed {
 		how := "single-connection"
 		if c.Conns > 1 || !c.KeepAlive {
@@ -245,6 +265,7 @@ func genRate(t *rapid.T) RateCase {
 		Health:    rapid.Bool().Draw(t, "health"),
 		Offered:   rapid.IntRange(30, 80).Draw(t, "offered"),
 		GapUs:     rapid.SampledFrom([]int{0, 500, 5000}).Draw(t, "gap"),
+		Spoof:     rapid.SampledFrom([]string{"", "", "X-Forwarded-For", "X-Real-IP", "both"}).Draw(t, "spoof"),
 	}
 }
 
@@ -446,7 +467,7 @@ var _ = net.Dial
 func TestC17(t *testing.T) {
 	defer stopSizeRigs()
 	defer stopFirstRigs()
-	rec.SetRule("rate: one stack per case with fast limits (300..1200/min, burst 1..10, optional global limit); 1..8 concurrent senders each with its own connection(s), keep-alive on/off, proxy/provider/Anthropic/mixed routes (including proxied paths that end in /internal/health), interleaved /internal/health; a quarter of the cases use a slow refill, a short cleanup_interval and senders that pause for longer than it; admitted = requests that reached the recording backend, judged against burst + rate x t + 1 over the over-estimated window [first send, last receive]; refusals must be 429. first: 2..12 requests fired at the same instant over pre-established connections from a client address the limiter has never seen (a fresh 127.a.b.c per case), limit 1/min, burst 1..3: at most burst may be admitted. minute: one slow-rate case per shard that watches a single client for more than 60 s (the limiter's accounting window) while it sends at 2.5x the refill rate. size: bodies (POST; on proxy/provider routes also PUT, PATCH, DELETE, GET) at limit-1, limit, limit+1, 5x limit with Content-Length or chunked framing against max_body_size {1 KiB, 64 KiB} and Anthropic max_message_size {4 KiB, 1 MiB}. non-trivial = >=3x the allowed volume offered over >=2 connections (rate) / chunked body above the limit (size); distinct by case")
+	rec.SetRule("rate: one stack per case with fast limits (300..1200/min, burst 1..10, optional global limit); 1..8 concurrent senders each with its own connection(s), keep-alive on/off, proxy/provider/Anthropic/mixed routes (including proxied paths that end in /internal/health), interleaved /internal/health; in three cases of five trust_proxy_headers is on while the senders are outside trusted_proxy_cidrs and put a different address into X-Forwarded-For / X-Real-IP on every request (the bound for the one real client is unchanged); a quarter of the cases use a slow refill, a short cleanup_interval and senders that pause for longer than it; admitted = requests that reached the recording backend, judged against burst + rate x t + 1 over the over-estimated window [first send, last receive]; refusals must be 429. first: 2..12 requests fired at the same instant over pre-established connections from a client address the limiter has never seen (a fresh 127.a.b.c per case), limit 1/min, burst 1..3: at most burst may be admitted. minute: one slow-rate case per shard that watches a single client for more than 60 s (the limiter's accounting window) while it sends at 2.5x the refill rate. size: bodies (POST; on proxy/provider routes also PUT, PATCH, DELETE, GET) at limit-1, limit, limit+1, 5x limit with Content-Length or chunked framing against max_body_size {1 KiB, 64 KiB} and Anthropic max_message_size {4 KiB, 1 MiB}. non-trivial = >=3x the allowed volume offered over >=2 connections (rate) / chunked body above the limit (size); distinct by case")
 	rec.Assume("rate: all senders share one client IP (127.0.0.1); the admission window is over-estimated, so a slow machine only loosens the bound")
 	if ev.Replay(t, rec, "rate", runRate) || ev.Replay(t, rec, "size", runSize) || ev.Replay(t, rec, "first", runFirst) {
 		return
